@@ -436,6 +436,7 @@ func Mirror(tx *bbolt.Tx, s *Stores) []Violation {
 	memos := subBucketNames(rawPath(tx, rootBucket, StMemos))
 	reviews := subBucketNames(rawPath(tx, rootBucket, StReviews))
 	folders := subBucketNames(rawPath(tx, rootBucket, StFolders))
+	desks := subBucketNames(rawPath(tx, rootBucket, StDesks))
 	var staffIds []string // the people that have staff data: the entities of the staff view
 	for _, id := range people {
 		if rawPath(tx, rootBucket, StPeople, id, StStaff) != nil {
@@ -457,7 +458,9 @@ func Mirror(tx *bbolt.Tx, s *Stores) []Violation {
 	m.checkUnique("depts.name", []string{rootBucket, boltz.IndexesBucket, StDepts, "name"}, holders(StDepts, depts, "name"), func(v []byte) []byte { return s.Depts.idxName.Read(tx, v) })
 	m.checkUnique("people.name", []string{rootBucket, boltz.IndexesBucket, StPeople, "name"}, holders(StPeople, people, "name"), func(v []byte) []byte { return s.People.idxName.Read(tx, v) })
 	m.checkUnique("people.nick", []string{rootBucket, boltz.IndexesBucket, StPeople, "alias"}, holders(StPeople, people, "nick"), func(v []byte) []byte { return s.People.idxNick.Read(tx, v) })
-	m.checkUnique("px.memo", []string{rootBucket, boltz.IndexesBucket, StPeople, "memo"}, holders(StPeople, people, "memo", StPX), func(v []byte) []byte { return s.PX.idxMemo.Read(tx, v) })
+	if s.PX.idxMemo != nil {
+		m.checkUnique("px.memo", []string{rootBucket, boltz.IndexesBucket, StPeople, "memo"}, holders(StPeople, people, "memo", StPX), func(v []byte) []byte { return s.PX.idxMemo.Read(tx, v) })
+	}
 	m.checkUnique("staff.badgeNo", []string{rootBucket, boltz.IndexesBucket, StPeople, "badgeNo"}, holders(StPeople, people, "badgeNo", StStaff), func(v []byte) []byte { return s.Staff.idxBadgeNo.Read(tx, v) })
 	roleHolders := map[string][]string{}
 	for _, id := range people {
@@ -482,6 +485,7 @@ func Mirror(tx *bbolt.Tx, s *Stores) []Violation {
 	m.checkBackrefs("notes.about->people", StPeople, "", people, refsOf(StNotes, notes, "about"), false)
 	m.checkBackrefs("tickets.assignee->people", StPeople, "", people, refsOf(StTickets, tickets, "assignee"), false)
 	m.checkBackrefs("memos.topic->groups", StGroups, "", groups, refsOf(StMemos, memos, "topic"), false)
+	m.checkBackrefs("desks.occupant->people.desks", StPeople, "desks", people, refsOf(StDesks, desks, "occupant"), true)
 	m.checkBackrefs("folders.parent->folders", StFolders, "", folders, refsOf(StFolders, folders, "parent"), false)
 	m.checkBackrefs("reviews.reviewer->staff", StStaff, "", staffIds, refsOf(StReviews, reviews, "reviewer"), false)
 	for _, id := range people {
@@ -497,6 +501,41 @@ func Mirror(tx *bbolt.Tx, s *Stores) []Violation {
 	for _, id := range memos {
 		if v, _ := rawString(rawPath(tx, rootBucket, StMemos, id), "topic"); v == "" {
 			m.bad("C04", "fk-null-nonnullable:memos.topic", "memo %q stored with empty non-nullable topic", id)
+		}
+	}
+
+	// --- the link collection whose person side lives in the child store (C05; also C15: "indexes and constraints apply
+	// identically to child entities")
+	for _, p := range people {
+		ls := typedKeys(rawPath(tx, rootBucket, StPeople, p, StStaff, "leading"))
+		for _, g := range ls {
+			if !containsStr(groups, g) {
+				m.bad("C05", "link-dangling:staff.leading", "staff %q linked to group %q which does not exist", p, g)
+				continue
+			}
+			if back := typedKeys(rawPath(tx, rootBucket, StGroups, g, "leads")); !containsStr(back, p) {
+				m.bad("C05", "link-one-sided:staff.leading", "staff %q lists group %q but the group does not list it (leads=%v)", p, g, back)
+			}
+		}
+		if rawPath(tx, rootBucket, StPeople, p, StStaff) != nil {
+			if api := s.Staff.lcLeading.GetLinks(tx, p); !sameSet(api, ls) {
+				m.bad("C05", "link-api:staff.leading", "GetLinks(staff %q)=%v, bucket holds %v", p, api, ls)
+			}
+		}
+	}
+	for _, g := range groups {
+		ps := typedKeys(rawPath(tx, rootBucket, StGroups, g, "leads"))
+		for _, p := range ps {
+			if rawPath(tx, rootBucket, StPeople, p, StStaff) == nil {
+				m.bad("C05", "link-dangling:groups.leads", "group %q lists staff %q which does not exist", g, p)
+				continue
+			}
+			if back := typedKeys(rawPath(tx, rootBucket, StPeople, p, StStaff, "leading")); !containsStr(back, g) {
+				m.bad("C05", "link-one-sided:groups.leads", "group %q lists staff %q but the staff entity does not list the group (leading=%v)", g, p, back)
+			}
+		}
+		if api := s.Groups.lcLeads.GetLinks(tx, g); !sameSet(api, ps) {
+			m.bad("C05", "link-api:groups.leads", "GetLinks(group %q)=%v, bucket holds %v", g, api, ps)
 		}
 	}
 
@@ -666,7 +705,7 @@ func propsForPersonDiff(a, b string) []string {
 	if x.Kind != StPeople {
 		set["C15"] = true
 	}
-	if x.Level != y.Level || x.Memo != y.Memo {
+	if x.Level != y.Level || x.Memo != y.Memo || x.Salary != y.Salary || x.Rate != y.Rate || x.Hired != y.Hired {
 		set["C15"] = true
 	}
 	set["C07"] = true // a committed transaction whose stored state is not the complete effect of its operations
@@ -689,7 +728,7 @@ func CompareModel(tx *bbolt.Tx, s *Stores, m *Model, universe map[string][]strin
 		StBadges: subBucketNames(rawPath(tx, rootBucket, StBadges)), StNotes: subBucketNames(rawPath(tx, rootBucket, StNotes)),
 		StTickets: subBucketNames(rawPath(tx, rootBucket, StTickets)), StGroups: subBucketNames(rawPath(tx, rootBucket, StGroups)),
 		StMemos: subBucketNames(rawPath(tx, rootBucket, StMemos)), StReviews: subBucketNames(rawPath(tx, rootBucket, StReviews)),
-		StFolders: subBucketNames(rawPath(tx, rootBucket, StFolders)),
+		StFolders: subBucketNames(rawPath(tx, rootBucket, StFolders)), StDesks: subBucketNames(rawPath(tx, rootBucket, StDesks)),
 	}
 	modelIds := map[string][]string{}
 	for id := range m.Depts {
@@ -719,12 +758,15 @@ func CompareModel(tx *bbolt.Tx, s *Stores, m *Model, universe map[string][]strin
 	for id := range m.Folders {
 		modelIds[StFolders] = append(modelIds[StFolders], id)
 	}
+	for id := range m.Desks {
+		modelIds[StDesks] = append(modelIds[StDesks], id)
+	}
 	presenceProps := map[string][]string{
 		StDepts: {"C04", "C06", "C07"}, StPeople: {"C04", "C06", "C07", "C15"}, StBadges: {"C04", "C06", "C07"},
 		StNotes: {"C04", "C06", "C07"}, StTickets: {"C04", "C06", "C07"}, StGroups: {"C05", "C06", "C07"},
-		StMemos: {"C04", "C06", "C07"}, StReviews: {"C04", "C06", "C07"}, StFolders: {"C04", "C06", "C07"},
+		StMemos: {"C04", "C06", "C07"}, StReviews: {"C04", "C06", "C07"}, StFolders: {"C04", "C06", "C07"}, StDesks: {"C04", "C06", "C07"},
 	}
-	for _, st := range []string{StDepts, StPeople, StBadges, StNotes, StTickets, StGroups, StMemos, StReviews, StFolders} {
+	for _, st := range []string{StDepts, StPeople, StBadges, StNotes, StTickets, StGroups, StMemos, StReviews, StFolders, StDesks} {
 		if !sameSet(present[st], modelIds[st]) {
 			a := append([]string(nil), present[st]...)
 			b := append([]string(nil), modelIds[st]...)
@@ -766,7 +808,7 @@ func CompareModel(tx *bbolt.Tx, s *Stores, m *Model, universe map[string][]strin
 					} else {
 						props = []string{"C06", "C07", "C15"}
 					}
-				case StBadges, StNotes, StTickets, StMemos, StReviews, StFolders:
+				case StBadges, StNotes, StTickets, StMemos, StReviews, StFolders, StDesks:
 					props = []string{"C04", "C07"}
 				case StDepts:
 					props = []string{"C03", "C07"}
@@ -775,6 +817,18 @@ func CompareModel(tx *bbolt.Tx, s *Stores, m *Model, universe map[string][]strin
 				}
 				bad(props, "entity-mismatch:"+st, "store %s id %q:\n   stored: %s\n   model:  %s", st, id, orNone(got), orNone(want))
 			}
+		}
+	}
+	// the second link collection is not part of any entity either: stored sets against the model
+	for _, p := range present[StPeople] {
+		var want []string
+		for k := range m.Leads {
+			if k.P == p {
+				want = append(want, k.G)
+			}
+		}
+		if got := typedKeys(rawPath(tx, rootBucket, StPeople, p, StStaff, "leading")); !sameSet(got, want) {
+			bad([]string{"C05", "C07", "C15"}, "link-model:staff.leading", "staff %q leads %v, the committed history implies %v", p, got, want)
 		}
 	}
 	// ref-counted links are not part of any entity: compare directly
